@@ -91,7 +91,9 @@ pub fn generate(seed: u64, tier: Tier) -> History {
     let n_future = swarm.range(0, 2);
     let with_dirs = swarm.chance(1, 3);
     let refs_ext = if swarm.chance(1, 4) { ".md" } else { "" }.to_string();
-    let n_ops = swarm.range(1, max_ops);
+    let marathon = swarm.chance(1, if tier == Tier::Thorough { 40 } else { 300 });
+    let n_ops = if marathon { swarm.range(120, 320) } else { swarm.range(1, max_ops) };
+    let poison_pct = *swarm.pick(&[0u32, 0, 0, 4, 8]);
     let restart_pct = *swarm.pick(&[0u32, 0, 5, 10, 25]);
     let save_pct = *swarm.pick(&[0u32, 10, 30]);
     let apply_pct = *swarm.pick(&[0u32, 0, 10, 25]);
@@ -103,11 +105,15 @@ pub fn generate(seed: u64, tier: Tier) -> History {
             enabled.push(m);
         }
     }
+    let mut probes_init: Vec<String> = vec![];
     let all_keys = gen::key_pool(n_notes + n_future, with_dirs);
     let lib_keys: Vec<String> = all_keys[..n_notes].to_vec();
     let mut targets = all_keys.clone();
     targets.push("zz".to_string());
-    let cfg = GenCfg { keys: lib_keys.clone(), targets, max_blocks: swarm.range(2, max_blocks), max_depth: 3 };
+    let cfg = GenCfg { keys: lib_keys.clone(), targets, max_blocks: if marathon { 4 } else { swarm.range(2, max_blocks) }, max_depth: 3 };
+    if marathon {
+        probes_init.push("marathon-history".to_string());
+    }
 
     let mut docs: BTreeMap<String, Doc> = BTreeMap::new();
     let mut library = BTreeMap::new();
@@ -117,12 +123,37 @@ pub fn generate(seed: u64, tier: Tier) -> History {
         docs.insert(k.clone(), d);
     }
     let mut ops = vec![];
-    let mut probes: BTreeSet<String> = BTreeSet::new();
+    let mut probes: BTreeSet<String> = probes_init.into_iter().collect();
     let mut version = 0;
     for _ in 0..n_ops {
         if work.chance(restart_pct, 100) {
             ops.push(Op::Restart);
             probes.insert("restart-fired".into());
+            continue;
+        }
+        if work.chance(poison_pct, 100) && !docs.is_empty() {
+            // a text the parser/builder is known not to survive (carve-out c03-shapes), then the repair
+            let ks: Vec<String> = docs.keys().cloned().collect();
+            let key = work.pick(&ks).clone();
+            let good = gen::render(&key, &docs[&key]);
+            let shape = *work.pick(&["- ```\n  code\n  ```\n", "- > quoted\n\n  more text\n", "- > # heading in quote\n\n  more text\n\n- [x](1)\n", "1. ```rust\n   let a = 1;\n   ```\n\n   tail\n"]);
+            let bad = format!("{}\n\n{}", good.trim_end(), shape);
+            ops.push(Op::Change { key: key.clone(), text: bad, class: "c03-shape".into() });
+            if work.chance(1, 3) && ks.len() > 1 {
+                // the server keeps serving other notes while one is torn
+                let other = work.pick(&ks).clone();
+                if other != key {
+                    version += 1;
+                    let vtok = format!("v{}", version);
+                    let mut g = Gen { rng: &mut work, cfg: &cfg };
+                    let m = *g.rng.pick(&enabled);
+                    let name = gen::mutate(&mut g, docs.get_mut(&other).unwrap(), m, &vtok);
+                    let t = gen::render(&other, &docs[&other]);
+                    ops.push(Op::Change { key: other, text: t, class: format!("while-torn:{}", name) });
+                }
+            }
+            ops.push(Op::Change { key, text: good, class: "repair-after-c03-shape".into() });
+            probes.insert("aborted-update-and-repair".into());
             continue;
         }
         if work.chance(apply_pct, 100) && !docs.is_empty() {
@@ -404,6 +435,12 @@ pub fn run(h: &History, with_patches: bool) -> Outcome {
                     if let Err(p) = r {
                         // does a fresh server accept these texts?
                         match guarded(|| canon::new_server(&model, &h.refs_ext)) {
+                            Err(_) if class.contains("c03-shape") => {
+                                // a deliberately unparseable text (the router swallows the panic and carries on):
+                                // the update was aborted half-way. No fresh server exists for these texts, so C04 is
+                                // not evaluated until the note is repaired; the forest invariants still are.
+                                *out.probes.entry("aborted-update".into()).or_default() += 1;
+                            }
                             Err(_) => {
                                 out.discarded = true;
                                 return out;
@@ -471,6 +508,18 @@ pub fn run(h: &History, with_patches: bool) -> Outcome {
         let fresh = match guarded(|| canon::new_server(&model, &h.refs_ext)) {
             Ok(s) => s,
             Err(_) => {
+                if out.probes.contains_key("aborted-update") {
+                    // some note currently holds a text no server can be built from: structural check only
+                    if !have("C20", &out) {
+                        let g = inc.verif_database().graph();
+                        let r = walker::check(g).map(|_| ()).and_then(|_| arena.step(g));
+                        if let Err(b) = r {
+                            out.violations.push(Violation { property: "C20".into(), step, label: format!("invariant {}", b.invariant), inc: b.what.clone(), fresh: String::new(), signature: format!("inv{}/aborted-update", b.invariant) });
+                        }
+                    }
+                    step += 1;
+                    continue;
+                }
                 out.discarded = true;
                 return out;
             }
@@ -599,20 +648,33 @@ pub fn minimise(h: &History, property: &str, signature: &str, budget: usize) -> 
             }
         }
     }
-    // 1. drop ops (from the front, keep the last op which is the one that exposes)
-    let mut changed = true;
-    while changed && used < budget {
-        changed = false;
+    // 1. drop ops: chunks of n/2, n/4, ... 1 (ddmin), within a wall-clock cap
+    let t0 = std::time::Instant::now();
+    let cap = std::time::Duration::from_secs(90);
+    let mut chunk = (best.ops.len() / 2).max(1);
+    loop {
         let mut i = 0;
-        while i < best.ops.len() && used < budget {
+        let mut removed_any = false;
+        while i < best.ops.len() && used < budget && t0.elapsed() < cap {
             let mut c = best.clone();
-            c.ops.remove(i);
+            let end = (i + chunk).min(c.ops.len());
+            c.ops.drain(i..end);
             if test(&c, &mut used) {
                 best = c;
-                changed = true;
+                removed_any = true;
             } else {
-                i += 1;
+                i += chunk;
             }
+        }
+        if used >= budget || t0.elapsed() >= cap {
+            break;
+        }
+        if chunk == 1 {
+            if !removed_any {
+                break;
+            }
+        } else {
+            chunk = (chunk / 2).max(1);
         }
     }
     // 2. drop notes from the library
